@@ -368,8 +368,28 @@ fn main() {
     // std's Arc/Weak - operations loom cannot interleave here.
     let stress = {
         let root = refsem::evidence::verif_root();
-        let out = std::process::Command::new(root.join("harness/target/release/pubcheck")).args(["c14-stress", tier.name()]).output();
+        // run with a watchdog: free-running threads that deadlock would hang the check
+        let out = (|| -> std::io::Result<std::process::Output> {
+            let mut child = std::process::Command::new(root.join("harness/target/release/pubcheck")).args(["c14-stress", tier.name()]).stdout(std::process::Stdio::piped()).stderr(std::process::Stdio::null()).spawn()?;
+            let limit = std::time::Duration::from_secs(if tier == Tier::Quick { 120 } else { 600 });
+            let started = std::time::Instant::now();
+            loop {
+                if child.try_wait()?.is_some() {
+                    return child.wait_with_output();
+                }
+                if started.elapsed() > limit {
+                    let _ = child.kill();
+                    let _ = child.wait();
+                    return Err(std::io::Error::new(std::io::ErrorKind::TimedOut, "watchdog"));
+                }
+                std::thread::sleep(std::time::Duration::from_millis(50));
+            }
+        })();
         match out {
+            Err(e) if e.kind() == std::io::ErrorKind::TimedOut => {
+                viol.add("", || Violation { key: String::new(), summary: "free-running threads: the stress pass (normally about 2 s) did not finish within the watchdog limit - the threads are blocked (deadlock or livelock)".into(), replay: json!({"pass": "free-running stress (8 OS threads, cached and uncached builds incl. failing ones, scans, drops)", "how": "harness/pubcheck c14-stress"}) });
+                json!({"outcome": "killed by the watchdog"})
+            }
             Err(e) => json!({"skipped": format!("pubcheck is not built: {e}")}),
             Ok(o) => match serde_json::from_slice::<serde_json::Value>(&o.stdout) {
                 Ok(v) => {
